@@ -4,10 +4,13 @@ Spec: spec/PyramidLifecycle.tla (+ spec/MCPyramidLifecycle.tla).  One abstract p
 output tiles = .png, index_rel.wtml, the user's Builder object) and the stage commands as actions in ANY order and
 repetition: NewBuilder(fmt), Sample(depth, region, clobber|update, source), Cascade(start), Transform(depth), WriteWtml.
 The merge rule is Cascade!MergeTile (INSTANCE of spec/Cascade.tla), positions are Quadtree, URL template / deepest
-level are Wtml.  Ghost variables carry what the command HISTORY promises (base, cons, fresh, shrunk, wtml.cur); the
-theorems say that this bookkeeping is sound in the directory and name what is not promised.  The code's habit of
-leaving a parent (an output tile) in place when all its children (its data tile) have disappeared is modelled
-faithfully as the deviation actions CascadeLeavesOrphans / TransformLeavesStale.
+level are Wtml.  Ghost variables carry what the command HISTORY promises (base, cons, fresh, shrunk, lost, wtml.cur);
+the theorems say that this bookkeeping is sound in the directory and name what is not promised.  The cascade is the
+ideal rule (merge.py removes a parent none of whose children exists: after Cascade(s) a tile above level s exists iff
+a tile of level s lies below it); the steps on which tile files disappear are named CascadeRemovesOrphans (ghost
+`pruned`; not a deviation - the harness additionally asserts on the real directory that every tile TLC removes on such
+a step is gone).  The code's habit of leaving an OUTPUT tile in place when its data tile has disappeared is modelled
+faithfully as the deviation action TransformLeavesStale.
 
 TLC (a) explores every command sequence up to a bound (T = 2 abstract pixels, depth <= 2) and checks the theorems,
 (b) refutes the "ideal" statements that the code does not keep (the counterexamples are the shortest command sequences
@@ -84,7 +87,8 @@ def cmd_text(c):
 CRAFTED = [
     # the documented order, then the .png session
     ("standard", [sample(2), cascade(2), write_wtml(), transform(2), new_builder("png"), write_wtml()]),
-    # a clobbering re-sample over a smaller region: leaves disappear, their parents become orphans, outputs go stale
+    # a clobbering re-sample over a smaller region: leaves disappear, their parents are orphans until the re-cascade
+    # removes them (the real directory must have lost them too), their outputs go stale
     ("resample-smaller", [sample(2), cascade(2), transform(2), sample(2, LEFT, "clobber", 1), cascade(2), transform(2)]),
     ("resample-smaller-mid", [sample(2, MID), cascade(2), sample(2, RIGHT, "clobber", 1), cascade(2), write_wtml(), transform(2)]),
     # a sample at a shallower depth after a deeper cascade, then cascades from both levels
@@ -105,6 +109,13 @@ CRAFTED = [
     ("stale-outputs-deep", [sample(2, MID), transform(2), sample(2, RIGHT, "clobber", 0), cascade(2), transform(2), transform(1)]),
     # everything removed again
     ("vanish", [sample(2, LEFT), cascade(2), transform(2), sample(2, RIGHT, "clobber", 1), cascade(2), cascade(1)]),
+    # orphans are first averaged into the root by a cascade from their own level (which does not visit them), then
+    # removed by the cascade from the level below them; the root is repaired
+    ("orphans-averaged-then-removed", [sample(2), cascade(2), sample(2, LEFT, "clobber", 1), cascade(1), cascade(2), transform(2)]),
+    # a chain of orphans is removed bottom-up: a cascade started deeper than the data finds an empty start level and
+    # erases level 1, then the root; the outputs and the WTML stay behind
+    ("cascade-from-deeper", [sample(1), cascade(1), transform(1), write_wtml(), cascade(2), transform(1)]),
+    ("cascade-from-deeper-resampled", [sample(0), cascade(1), sample(1, MID, "update", 1), cascade(2), sample(1, LEFT), cascade(1)]),
     # sessions
     ("sessions", [write_wtml(), sample(1), new_builder("npy"), write_wtml(), cascade(1), new_builder("png")]),
     ("png-session", [new_builder("png"), transform(1), write_wtml(), new_builder("npy"), sample(1, RIGHT), write_wtml()]),
@@ -138,13 +149,19 @@ def random_script(rng, length):
 # ------------------------------------------------------------------------------------------------
 # TLC
 # ------------------------------------------------------------------------------------------------
-BASE_INVARIANTS = ["TypeOK", "ConsistentLevels", "NeverStoredUndefined", "ExistenceAsBuilt", "IdealIffNoOrphan", "NoShrinkNoOrphan",
-                   "StandardSequenceExact", "RecascadeNoOp", "FreshLevels", "NoShrinkNoStaleOutput", "OutputComplete",
+BASE_INVARIANTS = ["TypeOK", "ConsistentLevels", "NeverStoredUndefined", "ExistenceIdeal", "NoOrphanAfterCascade", "PromisedLevelsIdeal",
+                   "AlwaysIdealAfterCascade", "StandardSequenceExact", "NoShrinkNoOrphan", "RecascadeNoOp", "PrunesExactlyWhenStale",
+                   "FreshLevels", "NoLossNoStaleOutput", "OutputComplete",
                    "BuilderKnowsDepth", "WtmlCurrent", "WtmlLevelsDeepest", "WtmlServes", "UnsampledBuilderLevelsZero"]
 OPERATOR_INVARIANTS = ["CascadeOperator", "TransformOperator"]
-# statements the code does not keep: TLC must refute each
-REFUTED = ["NoOrphanAfterCascade", "AlwaysIdealAfterCascade", "NothingDeeperThanBase", "NoStaleOutput", "WtmlAlwaysDeepest",
+# statements the code does not keep: TLC must refute each.  (NoOrphanAfterCascade / AlwaysIdealAfterCascade were refuted
+# until merge.py removed childless parents: they are theorems now.  NoShrinkNoStaleOutput was a theorem until then: a
+# cascade that deletes data tiles leaves their output tiles behind.)
+REFUTED = ["CascadePrunesOnlyAfterShrink", "NoShrinkNoStaleOutput", "NothingDeeperThanBase", "NoStaleOutput", "WtmlAlwaysDeepest",
            "TransformCommutesWithMerge"]
+# the action names of a step on which the model keeps a stale tile as the code does (mismatches there are reported as drift)
+DEVIATION_ACTIONS = ("TransformLeavesStale",)
+REQUIRED_ACTIONS = ("Sample", "CascadeClean", "CascadeRemovesOrphans", "TransformClean", "TransformLeavesStale", "WriteWtml", "NewBuilder")
 REGIONS3 = "{<<0, 4>>, <<0, 2>>, <<2, 4>>}"
 REGIONS4 = "{<<0, 4>>, <<0, 2>>, <<2, 4>>, <<1, 3>>}"
 
@@ -465,7 +482,7 @@ def replay_behaviour(job):
     from toasty.builder import Builder
     _memoise_tile_coords()
     findings = []
-    stats = {"steps": 0, "tiles": 0, "acts": {}}
+    stats = {"steps": 0, "tiles": 0, "acts": {}, "removed_by_cascade": 0, "orphans_removed": 0}
     base = tempfile.mkdtemp(prefix="g02-", dir=meta["scratch"])
     old = signal.signal(signal.SIGALRM, _alarm)
     signal.alarm(300)
@@ -475,7 +492,9 @@ def replay_behaviour(job):
         st = {"base": base}
         st["pio"] = PyramidIO(base, default_format="npy")
         st["builder"] = Builder(st["pio"])
+        prev = states[0]
         for rec in states[1:]:
+            before, prev = prev, rec
             cmd = rec["hist"][-1]
             op = cmd["op"].lower()
             hist_txt.append(cmd_text(cmd))
@@ -495,10 +514,28 @@ def replay_behaviour(job):
                     findings.append(("V", "G02:sample:leaves-visited", "the sampler was called for %d tiles %s..., the layer has %d leaves %s"
                                      % (len(st["calls"]), sorted(st["calls"])[:4], len(want), where)))
                     break
+            if rec["act"] == "CascadeRemovesOrphans":
+                # the tiles TLC removes on this step (children first: orphans, then the parents they leave childless)
+                # must be gone from the real directory
+                gone = sorted(set(tuple(t["pos"]) for t in before["data"]) - set(tuple(t["pos"]) for t in rec["data"]))
+                orph = set(tuple(q) for q in before["orphans"])
+                if not gone:
+                    findings.append(("M", "model", "TLC names the step %s CascadeRemovesOrphans but removes no tile %s" % (cmd_text(cmd), where)))
+                    break
+                tiles_now, _o = scan(base)
+                kept = [q for q in gone if ("npy", q) in tiles_now]
+                stats["removed_by_cascade"] += len(gone) - len(kept)
+                stats["orphans_removed"] += len([q for q in gone if q in orph and q not in kept])
+                if kept:
+                    findings.append(("V", "G02:cascade:orphan-kept",
+                                     "after %s: %d of the %d tiles whose leaves no longer exist are still in the directory: %s (childless before the "
+                                     "cascade: %s); a parent none of whose children exists must be removed %s"
+                                     % (cmd_text(cmd), len(kept), len(gone), kept, sorted(q for q in kept if q in orph), where)))
+                    break
             diffs, nt = compare_state(base, st, rec, meta)
             stats["tiles"] += nt
             if diffs:
-                deviation = rec["act"] in ("CascadeLeavesOrphans", "TransformLeavesStale")
+                deviation = rec["act"] in DEVIATION_ACTIONS
                 for kind, msg in diffs:
                     if kind == "builder":
                         if builder_drift:
@@ -573,7 +610,8 @@ def run(ctx):
     import time
     quick = ctx.quick
     ctx.rule = ("TLC: every command sequence over {NewBuilder(npy|png), Sample(depth 0-2, 3 column bands, clobber|update), Cascade(0-2), "
-                "Transform(0-2), WriteWtml} up to the stated bound at T = 2, all theorems as invariants; each 'ideal' statement refuted. "
+                "Transform(0-2), WriteWtml} up to the stated bound at T = 2, all theorems as invariants (the cascade is the ideal rule: a parent "
+                "none of whose children exists is removed); each 'ideal' statement the code does not keep refuted. "
                 "Replay: command scripts (crafted standard / adversarial orders + seeded random; inputs only) and TLC's own random walks, "
                 "evaluated by TLC at T = 4 with 4 bands and 2 sources; the real directory is compared after EVERY command. "
                 "distinct = distinct command history whose expected directory holds at least one tile")
@@ -683,12 +721,14 @@ def run(ctx):
         pool.shutdown(wait=True, cancel_futures=True)
 
     # ---- verdicts
-    acts, steps, ntiles = {}, 0, 0
+    acts, steps, ntiles, n_gone, n_orph = {}, 0, 0, 0, 0
     for (meta, states), (findings, stats) in zip(jobs, results):
         ctx.count(stats["steps"])
         ctx.trace_ok()
         steps += stats["steps"]
         ntiles += stats["tiles"]
+        n_gone += stats["removed_by_cascade"]
+        n_orph += stats["orphans_removed"]
         for a, v in stats["acts"].items():
             acts[a] = acts.get(a, 0) + v
         for i, rec in enumerate(states[1:]):
@@ -708,7 +748,7 @@ def run(ctx):
     for _meta, states in jobs:
         for rec in states[1:]:
             planned[rec["act"]] = planned.get(rec["act"], 0) + 1
-    for need in ("Sample", "CascadeClean", "CascadeLeavesOrphans", "TransformClean", "TransformLeavesStale", "WriteWtml", "NewBuilder"):
+    for need in REQUIRED_ACTIONS:
         if planned.get(need, 0) < 2:
             ctx.machinery("the behaviours to replay take action %s %d times: the scripts no longer reach it" % (need, planned.get(need, 0)))
     ctx.exhaustive = True
@@ -718,6 +758,7 @@ def run(ctx):
     ctx.note("tlc_refuted_ideals", refuted)
     ctx.note("replayed", {"behaviours": len(jobs), "scripts": len(scripts), "tlc_walks": len(jobs) - len([1 for m, _s in jobs if m["name"] != "tlc-walk"]),
                           "commands_executed": steps, "tile_files_compared": ntiles, "steps_by_action": acts,
+                          "tiles_removed_by_cascade_verified_gone": n_gone, "of_which_childless_before_the_cascade": n_orph,
                           "script_states": r_s.distinct, "walk_states": r_w.generated})
     ctx.note("phase_wall_s", {"expected_states_emitted": round(t_emit, 1), "replay_done": round(t_replay, 1), "tlc_done": round(time.time() - t0, 1)})
     for meta, states in jobs[:2] + jobs[len(CRAFTED): len(CRAFTED) + 1]:
